@@ -35,6 +35,8 @@ def programs(tier):
     progs += [('atomic:' + a, 2 if tier == 'quick' else 3, 120) for a in at]
     for a, b in itertools.combinations_with_replacement(SEQ2, 2):
         progs.append(('rng:%s|%s' % (a, b), 2 if tier == 'quick' else 3, 200))
+    if tier == 'quick':      # two overlapping re-keyings whose effect is observed by a later request
+        progs += [('rng:C,K,R32,X|C,K,X', 2, 300), ('rng:C,K,R32,X|C,K,S32,X', 2, 300)]
     if tier == 'thorough':
         for a in SEQ2_LONG:
             for b in SEQ2[:6] + SEQ2_LONG:
